@@ -23,6 +23,9 @@ import PandoraModel.Driver.C02
 import PandoraModel.Driver.C03
 import PandoraModel.Driver.C07
 import PandoraModel.Driver.C11
+import PandoraModel.Driver.C10
+import PandoraModel.Driver.C12
+import PandoraModel.Driver.C14
 
 namespace Pandora.Driver.C13
 open Lean (Json)
@@ -272,10 +275,113 @@ def hypsOp (j : Json) : Except String Json := do
     ("cone", listToJson natToJson [cone.up, cone.down, cone.left, cone.right]),
     ("pixels_in_cone", natToJson inCone), ("pixels_equal", natToJson equal), ("first_diff", firstDiff)]
 
+/-! ### the extended run (`extRunR`): any tail of refinements and filters, both cross-checks, filling, ambiguity -/
+
+/-- `{"kind": "refine", "method", "variant"} | {"kind": "median", "fs", "split"} |
+     {"kind": "bilateral", "sigma_space", "split", "spatial", "range"}` -/
+def tailStepOfJson (x : MC.Input) (j : Json) : Except String TailStep := do
+  match ← field j "kind" >>= strOfJson with
+  | "refine" =>
+    let (_, rp) ← refineOfJson j x.sp (gminOf x) (gmaxOf x)
+    pure (.refine rp)
+  | "median" =>
+    pure (.median (← field j "fs" >>= natOfJson) (← field j "split" >>= Driver.C03.splitOfJson))
+  | "bilateral" =>
+    let sigma ← field j "sigma_space" >>= ratOfJson
+    let wts ← Driver.C10.weightsOfJson j
+    pure (.bilateral wts (Filter.winWidth x.L.rows x.L.cols sigma) (← field j "split" >>= Driver.C03.splitOfJson))
+  | k => throw s!"unknown tail step {k}"
+
+/-- the maps after every step of the tail, each evaluated once (`none` from the step that raises on) -/
+def tailStaged (K : RunCfg) (x : MC.Input) (R : Nat → Nat → List Val) : List TailStep → Option Maps → List (Option Maps)
+  | [], _ => []
+  | s :: rest, m =>
+    let m' := (m.bind fun a => tailStep K x R a s).map (memoMaps x.L.rows x.L.cols)
+    m' :: tailStaged K x R rest m'
+
+def fillStaged (F : FillCfg) (m : Interp.DMap) : Interp.DMap :=
+  let mat := Driver.C14.materialise
+  match F.meth with
+  | none => m
+  | some .mccnn => mat (Interp.maskBorder F.off (Interp.mismMc F.v (mat (Interp.occlMc F.v m))))
+  | some .sgm => mat (Interp.occlSgm F.v (mat (Interp.mismSgm F.v m)))
+
+def dmapToJson (m : Interp.DMap) : Json :=
+  mkObj [("disp", valGrid m.rows m.cols m.disp), ("flag", natGrid m.rows m.cols m.flag)]
+
+def outToJson (rows cols : Nat) (o : CrossCheck.Out) : Json :=
+  mkObj [("mask", natGrid rows cols fun r c => (C07.outPix o r c).flag),
+         ("disp", valGrid rows cols (dmapOfOut rows cols o).disp)]
+
+def ambToJson (etas : List Rat) (x : MC.Input) (R : Nat → Nat → List Val) : Json :=
+  let v := volumeOf x.L.rows x.L.cols R
+  match ambiguityOf etas false x R, Confidence.globalMin v, Confidence.globalMax v with
+  | some band, some mn, some mx =>
+    mkObj [("band", gridToJson valToJson band),
+           ("margin", gridToJson (fun cv => match Driver.C12.ambMargin mn mx etas cv with
+              | some q => ratToJson q | none => Json.null) v)]
+  | _, _, _ => Json.null
+
+def xrunOp (j : Json) : Except String Json := do
+  let C ← cfgOfJson j
+  let spots ← spotsOfJson j
+  let x := C.x
+  let xs := swapInput x
+  let rows := x.L.rows
+  let cols := x.L.cols
+  let tailJ ← listOfJson pure (fieldD j "tail" (Json.arr #[]))
+  let tail ← tailJ.mapM (tailStepOfJson x)
+  let tail' ← tailJ.mapM (tailStepOfJson xs)
+  let meth ← match fieldD j "fill" Json.null with
+    | Json.null => pure none
+    | Json.str "mc-cnn" => pure (some Interp.Method.mccnn)
+    | Json.str "sgm" => pure (some Interp.Method.sgm)
+    | v => throw s!"unknown filling {v.compress}"
+  let F : FillCfg := { meth, v := Driver.C14.variantOfJson (fieldD j "fill_cfg" (Json.mkObj [])), off := C.CP.offset }
+  let etas ← listOfJson ratOfJson (fieldD j "etas" (Json.arr #[]))
+  let R := look (rowsTab C.K C.G x) []
+  let R' := look (rowsTab C.K' C.G xs) []
+  let start (K : RunCfg) (y : MC.Input) (Q : Nat → Nat → List Val) : Maps :=
+    memoMaps rows cols ⟨wtaMapR K y Q, C04C02.composedMask y⟩
+  let m0 := start C.K x R
+  let m0' := start C.K' xs R'
+  let stL := tailStaged C.K x R tail (some m0)
+  let stR := tailStaged C.K' xs R' tail' (some m0')
+  let A := stL.getLastD (some m0)
+  let B := stR.getLastD (some m0')
+  let (ccJ, fillJ, staged) := match A, B with
+    | some a, some b =>
+      let lr := CrossCheck.validationRun C.V C.CP C.CP' (leftDataset rows cols a) (leftDataset rows cols b)
+      let fl := fillStaged F (Driver.C14.materialise (dmapOfOut rows cols lr.1))
+      let fr := fillStaged F (Driver.C14.materialise (dmapOfOut rows cols lr.2))
+      ((outToJson rows cols lr.1, outToJson rows cols lr.2), (dmapToJson fl, dmapToJson fr), some (fl, fr))
+    | _, _ => ((Json.str "raises", Json.str "raises"), (Json.str "raises", Json.str "raises"), none)
+  -- the literal definition at the sampled pixels
+  let lit := extRunR C.K C.K' tail tail' C.V C.CP C.CP' F x R R'
+  let spotOk := match lit, staged with
+    | some (l, r), some (fl, fr) => spots.all fun (i, k) =>
+        decide (l.disp i k = fl.disp i k) && decide (l.flag i k = fl.flag i k) &&
+        decide (r.disp i k = fr.disp i k) && decide (r.flag i k = fr.flag i k)
+    | none, none => true
+    | _, _ => false
+  let side (K : RunCfg) (y : MC.Input) (Q : Nat → Nat → List Val) (m : Maps) (st : List (Option Maps)) (cc fill : Json) :=
+    mkObj [("flags", natGrid rows cols m.flag),
+           ("mc", gridToJson (listToJson valToJson) (Blocks.tabulate rows cols (costRow K y))),
+           ("cv", gridToJson (listToJson valToJson) (Blocks.tabulate rows cols Q)),
+           ("wta", valGrid rows cols m.disp),
+           ("tail", Json.arr (st.map (mapsToJson rows cols)).toArray),
+           ("cc", cc), ("fill", fill),
+           ("amb", if etas.isEmpty then Json.null else ambToJson etas y Q)]
+  return mkObj [
+    ("gmin", intToJson (gminOf x)), ("gmax", intToJson (gmaxOf x)),
+    ("spot_ok", Json.bool spotOk), ("spots", natToJson spots.length),
+    ("left", side C.K x R m0 stL ccJ.1 fillJ.1), ("right", side C.K' xs R' m0' stR ccJ.2 fillJ.2)]
+
 def handle (op : String) (j : Json) : Except String Json :=
   match op with
   | "C13.run" => runOp j
   | "C13.hyps" => hypsOp j
+  | "C13.xrun" => xrunOp j
   | _ => throw s!"unknown op {op}"
 
 end Pandora.Driver.C13
